@@ -25,10 +25,10 @@ TRUSTED_BASE = [
 # property -> configuration of the Verus route
 ALL_TYPES = pl.SCALAR_TYPES + pl.VECTOR_UNITS
 VERUS_PROPS = {
-    "C01": dict(units=ALL_TYPES + ["Spec"]),
-    "C02": dict(units=ALL_TYPES + ["Derivative"]),
-    "C03": dict(units=ALL_TYPES + ["Spec"]),
-    "C04": dict(units=["Spec"]),
+    "C01": dict(units=ALL_TYPES + ["Spec", "Dual__Dual"], thorough=["Dual__Dual__Dual"]),
+    "C02": dict(units=ALL_TYPES + ["Derivative", "Dual__Dual"], thorough=["Dual__Dual__Dual"]),
+    "C03": dict(units=ALL_TYPES + ["Spec", "Dual__Dual"]),
+    "C04": dict(units=["Spec", "Dual", "Dual2", "HyperDual", "Dual__Dual"], thorough=["Dual3", "HyperHyperDual", "Dual__Dual__Dual"]),
     "C06": dict(units=ALL_TYPES + ["F64"]),
     "C07": dict(units=pl.VECTOR_UNITS + ["Derivative"]),
     "C08": dict(units=ALL_TYPES),
@@ -62,11 +62,14 @@ def scan_assumptions(path):
 
 
 def verus_route(pid, tier):
-    cfg = VERUS_PROPS[pid]
+    cfg = dict(VERUS_PROPS[pid])
+    if tier == "thorough":
+        cfg["units"] = cfg["units"] + cfg.get("thorough", [])
     t0 = time.time()
     expanded, t_exp = pl.expand()
     code_units = [u for u in cfg["units"] if u != "Spec"]
     metas = pl.extract(expanded, code_units) if code_units else {}
+    metas = {u: m for u, m in metas.items() if u in cfg["units"]}
     if "Spec" in cfg["units"]:
         metas["Spec"] = dict(unit="Spec", functions=[], skipped=[], rewrite_rule_counts={})
     ufs = {}
@@ -115,6 +118,7 @@ def required_anchors(pid, metas):
         "C01": ["recip", "sqrt", "cbrt", "exp", "exp2", "exp_m1", "ln", "log", "log2", "log10", "ln_1p", "sin", "cos", "sin_cos", "tan",
                 "asin", "acos", "atan", "atan2", "sinh", "cosh", "tanh", "asinh", "acosh", "atanh", "abs", "signum", "chain_rule"],
         "C02": ["mul", "div", "add", "sub", "neg", "chain_rule"],
+        "C04": ["mul", "div", "add", "sub", "neg", "chain_rule"],
         "C03": ["mul", "div", "add", "sub", "neg", "chain_rule", "mul_add", "powd", "tan", "tanh"],
         "C08": ["mul", "div", "add", "sub", "neg", "mul_assign", "div_assign", "add_assign", "sub_assign", "inv", "from", "zero", "one", "mul_add"],
         "C07": ["mul", "div", "add", "sub", "neg", "mul_assign", "div_assign", "add_assign", "sub_assign", "chain_rule"],
